@@ -227,6 +227,13 @@ RuleSubscriptionSingleRoot(doc) ==
         /\ Cardinality(ChildSet(doc, d, 0)) = 1
         /\ RootFieldCount(doc, d, 0, {}) = 1
 
+\* `__typename` is a scalar (no sub-selection: GraphQL) and is the tag of the generated enums, so the
+\* generator requires it under its own name (no alias: graphql-client's own rule, defects D30 / D31)
+RuleTypenameNoSelection(doc) ==
+  \A i \in NodeIds(doc) : doc.nodes[i].k = "typename" => ChildSet(doc, doc.nodes[i].d, i) = {}
+RuleTypenameNotAliased(doc) ==
+  \A i \in NodeIds(doc) : doc.nodes[i].k = "typename" => doc.nodes[i].alias = ""
+
 RuleOperationsNamed(doc) ==
   \A d \in 1..Len(doc.defs) : doc.defs[d].k = "op" => (doc.defs[d].name # "" /\ doc.defs[d].kind # "bare")
 
@@ -243,6 +250,8 @@ Valid(S, doc, roots) ==
   /\ RuleLeafComposite(S, doc, roots)
   /\ RuleSpreadsPossible(S, doc, roots)
   /\ RuleTypenamePresent(S, doc, roots)
+  /\ RuleTypenameNotAliased(doc)
+  /\ RuleTypenameNoSelection(doc)
   /\ RuleSubscriptionSingleRoot(doc)
 
 \* GraphQL validity alone: Valid without graphql-client's own __typename rule.  A document that is
@@ -257,6 +266,7 @@ ValidSpec(S, doc, roots) ==
   /\ RuleOnlyTypenameOnUnion(S, doc, roots)
   /\ RuleLeafComposite(S, doc, roots)
   /\ RuleSpreadsPossible(S, doc, roots)
+  /\ RuleTypenameNoSelection(doc)
   /\ RuleSubscriptionSingleRoot(doc)
 
 ----------------------------------------------------------------------------
